@@ -89,6 +89,8 @@ pub struct Obj {
     pub wire_completed: u64,
     pub pkts_total: u64,
     pub forced_seen: bool,
+    /// a packet carrying the close-object flag B was seen (non-empty object): no packet of this TOI may follow
+    pub closed_seen: bool,
     /// fault schedule of the (stream) source: code of the n-th transfer attempt (0 = open fails, >= 1 = first read fails)
     pub faults: Vec<u64>,
     /// EMPTY object sent with a rateless codec from a buffer: one transfer = its `parity` repair packets (the op's
@@ -416,6 +418,11 @@ impl SchedEngine {
                 return "bad-op".into();
             }
         }
+        // a READ failure cannot be observed on an empty source (the lone empty-object packet needs no data): outside
+        // the fault model's input domain; only open failures (code 0) are meaningful for an empty object
+        if n_sym == 0 && faults.iter().any(|c| *c >= 1) {
+            return "bad-op".into();
+        }
         let len = if n_sym == 0 || rateless.is_some() { 0 } else { (n_sym - 1) * e + rem };
         let sender = match self.sender.as_mut() {
             Some(s) => s,
@@ -505,6 +512,7 @@ impl SchedEngine {
                     wire_completed: 0,
                     pkts_total: 0,
                     forced_seen: false,
+                    closed_seen: false,
                     faults: faults.clone(),
                     rateless_empty: rateless.is_some(),
                 };
@@ -1012,6 +1020,14 @@ impl SchedEngine {
         let last_of_transfer = idx + 1 == ob.n_pk;
         let is_last_transfer = ob.car.is_none() && ob.stops + 1 == ob.maxc as u64;
         let want_b = forced || ob.n_sym == 0 || (last_of_transfer && is_last_transfer);
+        // C08 close-object clause seen from the scheduler (any history, trigger_transfer_at included): a packet with B
+        // is the last packet EVER sent for its TOI (an empty object's lone packet always carries B: exempt)
+        if ob.closed_seen && ob.n_sym != 0 {
+            o.fail("C08:packet-after-close-flag", &format!("packet {} of transfer {} of {} follows a packet of that TOI carrying the close-object flag", idx, ob.starts, toi));
+        }
+        if b {
+            ob.closed_seen = true;
+        }
         if b != want_b {
             o.fail("C12:close-flag", &format!("packet {} of transfer {} of {}: B={} expected {}", idx, ob.starts, toi, b, want_b));
         }
